@@ -1,7 +1,11 @@
 use crate::tast;
 
 pub fn ty_compact(ty: &tast::Ty) -> String {
+    // `dyn Tr` is the only rendering in which whitespace separates two words;
+    // dropping it would make the trait object `dyn Show` and a type named
+    // `dynShow` (or `f[T]` at either) share one name.
     ty.to_pretty(10000)
+        .replace("dyn ", "dyn~")
         .chars()
         .filter(|c| !c.is_whitespace())
         .collect()
